@@ -32,6 +32,9 @@ Section Proofs.
   Lemma picks_length {A} (l : list A) x r : In (x, r) (picks l) -> length l = S (length r).
   Proof. intros H. apply picks_perm, Permutation_length in H. simpl in H. auto. Qed.
 
+  Lemma any_lazy_existsb {A} (f : A -> bool) l : any_lazy f l = existsb f l.
+  Proof. induction l as [|a l IH]; simpl; [reflexivity|]. destruct (f a); simpl; auto. Qed.
+
   Lemma minimal_spec c l : minimal c l = true <-> (forall d, In d l -> ~ (c_resp d < c_inv c)).
   Proof.
     unfold minimal. rewrite forallb_forall. split; intros H d Hd; specialize (H d Hd).
@@ -45,8 +48,9 @@ Section Proofs.
     induction f as [|f IH]; intros st l H.
     - destruct l; [exists []; simpl; auto | discriminate].
     - destruct l as [|c0 l0]; [exists []; simpl; auto|].
-      cbn [LinCheck.search] in H. apply existsb_exists in H. destruct H as ([c r] & Hin & Hc). simpl in Hc.
-      apply andb_true_iff in Hc. destruct Hc as [Hc Hs]. apply andb_true_iff in Hc. destruct Hc as [Hm Hr].
+      cbn [LinCheck.search] in H. rewrite any_lazy_existsb in H. apply existsb_exists in H. destruct H as ([c r] & Hin & Hc). simpl in Hc.
+      destruct (minimal c r) eqn:Hm; [|discriminate].
+      destruct (req (snd (sstep st (c_op c))) (c_ret c)) eqn:Hr; [|discriminate]. rename Hc into Hs.
       destruct (IH _ _ Hs) as (w & Hp & Hrt & Hsq).
       exists (c :: w). split; [|split].
       + eapply Permutation_trans; [apply perm_skip; exact Hp | apply picks_perm; exact Hin].
@@ -56,9 +60,10 @@ Section Proofs.
 
   Lemma search_S f st l : l <> [] ->
     search (S f) st l =
-    existsb (fun p => minimal (fst p) (snd p) && req (snd (sstep st (c_op (fst p)))) (c_ret (fst p)) &&
-                      search f (fst (sstep st (c_op (fst p)))) (snd p)) (picks l).
-  Proof. destruct l; [congruence | reflexivity]. Qed.
+    existsb (fun p => if minimal (fst p) (snd p) then
+                        if req (snd (sstep st (c_op (fst p)))) (c_ret (fst p)) then search f (fst (sstep st (c_op (fst p)))) (snd p) else false
+                      else false) (picks l).
+  Proof. destruct l; [congruence|]. intros _. cbn [LinCheck.search]. apply any_lazy_existsb. Qed.
 
   Theorem search_complete : forall w st l f,
     Permutation w l -> rt_ok w -> seq_ok st w -> length l <= f -> search f st l = true.
@@ -72,9 +77,9 @@ Section Proofs.
       rewrite search_S by (destruct l1; discriminate).
       apply existsb_exists. exists (c, l1 ++ l2). split; [apply picks_split|]. simpl.
       simpl in Hrt, Hsq. destruct Hrt as [Hmin Hrt]. destruct Hsq as [Hr Hsq].
-      rewrite Hr. rewrite andb_true_r. apply andb_true_iff. split.
-      + apply minimal_spec. intros d Hd. apply Hmin. eapply Permutation_in; [apply Permutation_sym; exact Hp | exact Hd].
-      + apply IH; auto. rewrite app_length in *. simpl in Hf. lia.
+      assert (minimal c (l1 ++ l2) = true) as Hm.
+      { apply minimal_spec. intros d Hd. apply Hmin. eapply Permutation_in; [apply Permutation_sym; exact Hp | exact Hd]. }
+      rewrite Hm, Hr. apply IH; auto. rewrite app_length in *. simpl in Hf. lia.
   Qed.
 
   (** THE CHECKER DECIDES LINEARIZABILITY *)
